@@ -161,10 +161,27 @@ func vEntryPoint(e int, lg *Entry, ctx context.Context, sev Level) (Level, bool)
 		lg.FatalContext(ctx, m)
 		return FatalLevel, true
 	case 24:
-		lg.LogAttrs(ctx, sev, m)
+		// with every shape of the variadic arguments the entry point accepts
+		switch vChoose(4) {
+		case 0:
+			lg.LogAttrs(ctx, sev, m)
+		case 1:
+			lg.LogAttrs(ctx, sev, m, Attrs{NewAttr("k", 1)})
+		case 2:
+			lg.LogAttrs(ctx, sev, m, NewAttr("k", 1))
+		case 3:
+			lg.LogAttrs(ctx, sev, m, "k", 1)
+		}
 		return sev, true
 	case 25:
-		lg.Logit(ctx, sev, m)
+		switch vChoose(3) {
+		case 0:
+			lg.Logit(ctx, sev, m)
+		case 1:
+			lg.Logit(ctx, sev, m, Attrs{NewAttr("k", 1)})
+		case 2:
+			lg.Logit(ctx, sev, m, "k", 1)
+		}
 		return sev, true
 	case 26:
 		lg.Log(ctx, logslog.LevelDebug, m)
